@@ -77,7 +77,7 @@ def _b_c03(run):
 _add(PropertySpec(
     'C03', 'other',
     functions=['ampycloud.data.CeiloChunk._calculate_cloud_amount', 'ampycloud.data.CeiloChunk.metarize',
-               'ampycloud.wmo.perc2okta', 'ampycloud.wmo.okta2code'],
+               'ampycloud.data.CeiloChunk.max_hits_per_layer', 'ampycloud.wmo.perc2okta', 'ampycloud.wmo.okta2code'],
     lemmas=['cnt_frame', 'prop.C03.mono', 'prop.C03.range', 'prop.C18.nm.zero', 'prop.C18.nm.eight', 'prop.C18.nm.range',
             'prop.C18.mono_v', 'prop.C18.mono_nm'],
     bounded=_b_c03,
